@@ -28,6 +28,15 @@ add("C12", "fault_enumeration", "DESIGN.md §2 C12",
     "stat/enumeration faults are injected by wrapping os.stat/os.listdir in the harness process; the "
     "client-side parsers of clients.py are trusted; the socket is replaced by an in-memory file")
 
+add("C02", "exploration", "DESIGN.md §2 C02",
+    "Hypothesis near-miss request-line grammar x TLS x header blocks x protocol orders, decided against an "
+    "independent reference classifier of the documented request shapes (first match, TLS-strict)",
+    "20k (quick) / 400k (thorough) generated first lines around every protocol's shape boundary are classified by "
+    "the real ProtocolMultiplexer and by a from-scratch model; winner, TLS strictness, determinism and totality "
+    "of the shipped list are asserted. Sampled exploration of an infinite input space, dense near the boundaries.",
+    "TLS-ness is simulated the way the repository's tests do (request object is an ssl.SSLSocket instance); "
+    "shape questions the documents leave open are accepted either way")
+
 NOT_APPLICABLE = []
 
 
